@@ -23,6 +23,7 @@ import signal
 import warnings
 
 from vp import bnlabels, core, pipeprops, pipespec, pipe
+from vp.props import c14
 
 
 def blank_nodes(ts):
@@ -152,6 +153,30 @@ def _impl_other(ts, cfg, kind, timeout=10.0):
 pipe.impl_other = _impl_other        # vp.pipeprops / vp.pipe are not edited (as vp.pipemap.install does)
 
 
+def plant_class_as_node(r, ts, tau=pipe.RDF_TYPE):
+    """a class of the graph becomes a node like any other: it gets a class itself (`<C> tau <C'>`) and is the value
+    of an ordinary property of one or two typed nodes (`<n> p <C>`), so that one IRI occurs as the object of typing
+    statements AND as an ordinary non-literal value (ontology-plus-data documents); seed C09-m5"""
+    ts = list(ts)
+    classes = list(dict.fromkeys(o for _, p, o in ts if p == tau and o[0] == "I"))
+    typed = list(dict.fromkeys(s for s, p, o in ts if p == tau and o[0] != "L"))
+    props = list(dict.fromkeys(p for _, p, _ in ts if p != tau)) or [c14.E + "p0"]
+    if not classes or not typed:
+        return ts
+    have = set(ts)
+    # a class with a blank-node instance is not given a class: with inverse_paths the key of an incoming typing
+    # statement is the SUBJECT's id (`^ rdf:type [<_:b0>]`), which a renaming of the blank nodes renames with it
+    # (C09_keys_rename_invariant states exactly that, through rvc); the harness compares keys literally
+    free = [c for c in classes if not any(s[0] == "B" and p == tau and o == c for s, p, o in ts)]
+    c = r.choice(free or classes)
+    for t in ([(c, tau, r.choice(classes))] if free else []) + \
+            [(r.choice(typed), r.choice(props), c) for _ in range(r.choice([1, 2]))]:
+        if t not in have:
+            have.add(t)
+            ts.insert(r.randint(0, len(ts)), t)
+    return ts
+
+
 class Spec(pipeprops.PropSpec):
     pid = "C09"
     theorems = "C09_occ_permutation_invariant, C09_profile_counts_permutation_invariant (Props/C09.v)"
@@ -161,13 +186,17 @@ class Spec(pipeprops.PropSpec):
             "blank nodes) x a random permutation of the statements composed with a random injective renaming of "
             "the blank nodes into one family of the BLANK_NODE_LABEL grammar (plain / siblings differing after a "
             "'.', '-', ':' or a non-ASCII character / proper-prefix chains / several hundred characters / case "
-            "only / uniform over the grammar) x switch assignments round-robin; one case in four reads the renamed "
+            "only / uniform over the grammar) x switch assignments round-robin; one document in five carries 1-4 "
+            "literals spelled like the IRI / label of a node, a class or a property (c14.plant_iri_literals), one in "
+            "ten a class that is itself a typed node and an ordinary value (plant_class_as_node): one string in "
+            "object position under two node kinds; one case in four reads the renamed "
             "document from a file as well; exhaustive over all permutations for documents of <= 5 statements "
             "(thorough: <= 6); non-trivial = some class with >= 2 instances and some non-typing triple")
 
     def __init__(self):
         self.stats = {"families": {}, "features": {}, "cases_with_blank_nodes": 0, "blank_node_heavy": 0,
-                      "file_runs": 0, "renamed_subjects": 0, "renamed_objects": 0,
+                      "file_runs": 0, "renamed_subjects": 0, "renamed_objects": 0, "planted": {},
+                      "objects_spelled_alike_under_two_kinds": 0,
                       "detect_minimal_iri_runs_with_a_class_of_blank_nodes_only": 0}
 
     def _count(self, fam, names, ts2, heavy, with_file):
@@ -207,6 +236,17 @@ class Spec(pipeprops.PropSpec):
             cfg = pipeprops.random_cfg(r, ts, i)
             cfg["cap"] = -1          # the cap keeps the first k instances in document order (C16): not order-invariant
             cfg["detect_minimal_iri"] = (i % 2 == 1)   # the stem is part of "the same shapes" (implementation side only)
+            planted = None
+            if i % 5 == 4:
+                ts, planted = c14.plant_iri_literals(r, ts, tau=cfg["tau"]), "iri_spelled_literals"
+            elif i % 10 == 7:
+                ts, planted = plant_class_as_node(r, ts, cfg["tau"]), "class_as_node"
+            if planted:
+                self.stats["planted"][planted] = self.stats["planted"].get(planted, 0) + 1
+            kinds = {}
+            for _, p_, o_ in ts:
+                kinds.setdefault(o_[1], set()).add("L" if o_[0] == "L" else ("T" if p_ == cfg["tau"] else "N"))
+            self.stats["objects_spelled_alike_under_two_kinds"] += any(len(v) > 1 for v in kinds.values())
             ts2, fam, names = relabel(ts, r)
             r.shuffle(ts2)
             runs = [(ts, cfg), (ts2, cfg)]
